@@ -57,7 +57,7 @@ const Prelude = `
 (assert (forall ((l SList)) (! (=> (= (llen l) 0) (= l lnil)) :pattern ((llen l)))))
 (assert (forall ((x BSeq)) (! (and (= (llen (lunit x)) 1) (= (lat (lunit x) 0) x)) :pattern ((lunit x)))))
 (assert (forall ((a SList) (b SList)) (! (= (llen (lapp a b)) (+ (llen a) (llen b))) :pattern ((lapp a b)))))
-(assert (forall ((a SList) (b SList) (i Int)) (! (= (lat (lapp a b) i) (ite (< i (llen a)) (lat a i) (lat b (- i (llen a))))) :pattern ((lat (lapp a b) i)))))
+(assert (forall ((a SList) (b SList) (i Int)) (! (= (lat (lapp a b) i) (ite (< i (llen a)) (lat a i) (lat b (- i (llen a))))) :pattern ((lat (lapp a b) i)) :pattern ((lat a i) (lapp a b)))))
 (assert (forall ((s SList) (a Int) (b Int)) (! (=> (and (<= 0 a) (<= a b) (<= b (llen s))) (= (llen (lsub s a b)) (- b a))) :pattern ((lsub s a b)))))
 (assert (forall ((s SList) (a Int) (b Int) (i Int)) (! (=> (and (<= 0 a) (<= a b) (<= b (llen s)) (<= 0 i) (< i (- b a))) (= (lat (lsub s a b) i) (lat s (+ a i)))) :pattern ((lat (lsub s a b) i)))))
 (assert (forall ((s SList) (i Int) (v BSeq)) (! (= (llen (lupd s i v)) (llen s)) :pattern ((lupd s i v)))))
@@ -66,6 +66,7 @@ const Prelude = `
 (assert (forall ((a SList) (b SList)) (! (=> (leq a b) (= a b)) :pattern ((leq a b)))))
 (assert (forall ((s SList)) (! (= (lsub s 0 (llen s)) s) :pattern ((lsub s 0 (llen s))))))
 (assert (forall ((a SList) (b SList) (c SList)) (! (= (lapp (lapp a b) c) (lapp a (lapp b c))) :pattern ((lapp (lapp a b) c)))))
+(assert (forall ((a SList) (s SList)) (! (=> (= (llen s) 1) (= s (lunit (lat s 0)))) :pattern ((lapp a s)))))
 ; Go's truncated division / remainder on top of SMT-LIB's Euclidean ones
 (define-fun gdiv ((a Int) (b Int)) Int (ite (>= a 0) (div a b) (- (div (- a) b))))
 (define-fun gmod ((a Int) (b Int)) Int (- a (* b (gdiv a b))))
